@@ -202,6 +202,63 @@ def _run(ck):
             except ValueError:
                 if vx.denominator == 1:
                     ck.violation('int(x) raised for an integer value', {'x': repr(x)})
+    # integers with more than 53 significant bits next to the value (a comparison that went through a double would
+    # merge them), and integers beyond the double range
+    for k in (53, 54, 60, 64, 100, 1030):
+        for dx in (-1, 0, 1):
+            vi = 2 ** k + dx
+            for x in (Float.from_int(vi), RealFloat.from_int(vi), Float.from_int(-vi)):
+                vx = x.as_rational()
+                for do in (-1, 0, 1, 2):
+                    for o in (2 ** k + do, -(2 ** k + do)):
+                        glue += 1
+                        exp = (vx > o) - (vx < o)
+                        try:
+                            got = x.compare(o)
+                            gotn = {'LESS': -1, 'EQUAL': 0, 'GREATER': 1}.get(getattr(got, 'name', None), repr(got))
+                            res = (gotn, x == o, x < o, x <= o, x > o, x >= o, o == x, o < x, o > x)
+                        except Exception as e:  # noqa
+                            res = repr(e)
+                        want = (exp, exp == 0, exp < 0, exp <= 0, exp > 0, exp >= 0, exp == 0, exp > 0, exp < 0)
+                        if res != want:
+                            ck.violation('comparison with a Python int disagrees with the denoted values (wide integer)',
+                                         {'x': repr(x), 'other': o, 'got': repr(res), 'expected': repr(want)})
+                        if exp == 0 and hash(x) != hash(o):
+                            ck.violation('equal values hash differently', {'x': repr(x), 'other': o})
+    # rationals whose denominator is next to a power of two: conversion and mixed arithmetic are exact or raise
+    one = RealFloat.from_int(1)
+    for den in [2 ** 49 + 1, 2 ** 50 - 1, 2 ** 52 + 1, 2 ** 53 - 1, 2 ** 60 + 1, 2 ** 64 - 1, 3 * 2 ** 50, 2 ** 80 + 1,
+                2 ** 100 - 1, 2 ** 60, 2 ** 80]:
+        for num in (1, 3, -5, 2 ** 70 + 1):
+            q = Fraction(num, den)
+            dyadic = q.denominator & (q.denominator - 1) == 0
+            trials = [('RealFloat.from_rational(q)', lambda: RealFloat.from_rational(q), q),
+                      ('Float.from_rational(q)', lambda: Float.from_rational(q), q),
+                      ('RealFloat(1) + q', lambda: one + q, 1 + q), ('q + RealFloat(1)', lambda: q + one, 1 + q),
+                      ('RealFloat(1) * q', lambda: one * q, q), ('RealFloat(1) - q', lambda: one - q, 1 - q)]
+            for nm, f, want in trials:
+                glue += 1
+                try:
+                    r = f()
+                except (ValueError, TypeError):
+                    if dyadic:
+                        ck.violation('an operation on a dyadic rational raised', {'expr': nm, 'q': str(q)})
+                    continue
+                except Exception as e:  # noqa
+                    ck.violation('an operation on a rational raised an unexpected error', {'expr': nm, 'q': str(q), 'error': repr(e)})
+                    continue
+                try:
+                    val = r.as_rational() if hasattr(r, 'as_rational') else Fraction(r)
+                except Exception:  # noqa
+                    val = None
+                if val != want:
+                    ck.violation('an operation on a rational returned a value that is not the exact result',
+                                 {'expr': nm, 'q': str(q), 'got': repr(r), 'expected': str(want)})
+            glue += 1
+            c = one.compare(q)
+            exp = (1 > q) - (1 < q)
+            if {'LESS': -1, 'EQUAL': 0, 'GREATER': 1}.get(getattr(c, 'name', None)) != exp:
+                ck.violation('mixed-type compare disagrees with the denoted values', {'x': '1', 'other': str(q), 'got': repr(c)})
     # from_float decodes the bit pattern exactly
     for f in [0.0, -0.0, 5e-324, 2.2250738585072014e-308, 1.0, -1.5, 0.1, 1e308, 1.7976931348623157e308] + \
              [struct.unpack('<d', struct.pack('<Q', rng.getrandbits(64) & ~(0x7ff << 52) | (rng.randint(0, 2046) << 52)))[0] for _ in range(300)]:
